@@ -500,9 +500,19 @@ func runC14(c *ev.Ctx) {
 		if idx%20011 == 3 {
 			c.Sample(map[string]interface{}{"container": "list", "elements": names15(dg)})
 		}
-		if msg, sig := c14List(dg); msg != "" {
+		var msg, sig string
+		if pn, pv := try(func() { msg, sig = c14List(dg) }); pn {
+			msg, sig = fmt.Sprintf("a typed view of the list %v panicked: %v", names15(dg), pv), "views/panic"
+		}
+		if msg != "" {
 			dg2 := append([]int{}, dg...)
-			c.Violate(ev.Violation{Sig: sig, Msg: msg, Witness: map[string]interface{}{"list": names15(dg2)}}, func() string { _, s := c14List(dg2); return s })
+			c.Violate(ev.Violation{Sig: sig, Msg: msg, Witness: map[string]interface{}{"list": names15(dg2)}}, func() string {
+				s := ""
+				if pn, _ := try(func() { _, s = c14List(dg2) }); pn {
+					return "views/panic"
+				}
+				return s
+			})
 		}
 	})
 	if done < total {
@@ -535,9 +545,19 @@ func runC14(c *ev.Ctx) {
 				if idx%5003 == 3 {
 					c.Sample(map[string]interface{}{"container": "object", "keys": ks, "values": names15(dg)})
 				}
-				if msg, sig := c14Object(ks, dg); msg != "" {
+				var msg, sig string
+				if pn, pv := try(func() { msg, sig = c14Object(ks, dg) }); pn {
+					msg, sig = fmt.Sprintf("a typed view of an object with keys %v panicked: %v", ks, pv), "views/panic"
+				}
+				if msg != "" {
 					dg2 := append([]int{}, dg...)
-					c.Violate(ev.Violation{Sig: sig, Msg: msg, Witness: map[string]interface{}{"keys": ks, "values": names15(dg2)}}, func() string { _, s := c14Object(ks, dg2); return s })
+					c.Violate(ev.Violation{Sig: sig, Msg: msg, Witness: map[string]interface{}{"keys": ks, "values": names15(dg2)}}, func() string {
+						s := ""
+						if pn, _ := try(func() { _, s = c14Object(ks, dg2) }); pn {
+							return "views/panic"
+						}
+						return s
+					})
 				}
 			})
 		}
